@@ -6,7 +6,7 @@ Parts (DESIGN "### C06"):
  (c) order preservation through the sdv -> ddv -> adv -> primitive layers -- proof
  (a) grammar tables of the six host types, Grammar.__init__             -- proof + finite obligations
  (d) the non-recursive helpers of expression/parser._Parser             -- proof against a TokenParser interface
- (e) the mutually recursive descent itself                              -- bounded stand-in
+ (e) the mutually recursive descent itself                              -- bounded stand-in; proof by induction: C06c_descent.py
 """
 from pyvc.api import (Module, Interface, Method, Iface, Inst, Int, Nat, Bool, Str, Opt, OneOf, Const, Union,
                       ListOf, FixedList, Any_, EnumOf, Custom, new_opaque, assume_pred)
@@ -957,7 +957,18 @@ def denotation_of_primitive_token(self, primitive_name, result, trace):
         and made(trace, self.grammar.mk_reference, (primitive_name,), result)
 
 
-M.contract(P_PARSER + ':_Parser.parse_primitive',
+def _in_descent(function_under_verification):
+    """(extension P6) while a function of the recursive descent is verified (contracts/C06c_descent.py, over a token
+    SEQUENCE) the four helpers below -- whose contracts speak about the look-ahead only -- are interpreted from
+    their real source"""
+    return function_under_verification in tuple(P_PARSER + ':_Parser.' + n for n in (
+        'parse', 'parse_w_maybe_infix_ops', 'parse_w_infix_ops', 'infix_op_sequence_for_single_op',
+        'parse_mandatory_primitive')) + (
+        P_PARSER + ':_SimpleParserOnAnyLineParser.parse_from_token_parser',
+        P_PARSER + ':_FullParserOnAnyLineParser.parse_from_token_parser')
+
+
+M.contract(P_PARSER + ':_Parser.parse_primitive', inline=_in_descent,
            params=dict(self=PARSER, primitive_name=Str),
            raises={SIIAE: {'ensures': lambda self, trace: consumed(trace, self.parser._token_stream) == []}},
            ensures={
@@ -969,7 +980,7 @@ M.contract(P_PARSER + ':_Parser.parse_primitive',
                    and primitive_name not in self.grammar.custom_reserved_words),
            }, raises_only=())
 
-M.contract(P_PARSER + ':_Parser.consume_optional_prefix_operator',
+M.contract(P_PARSER + ':_Parser.consume_optional_prefix_operator', inline=_in_descent,
            params=dict(self=PARSER), old=_STREAM_HEAD,
            # operator names are not empty (the code tests the matched name for truth, not for None): holds for
            # every grammar of the program -- finite obligations 'prefix operators are [...]' of 'grammar-tables'
@@ -983,7 +994,7 @@ M.contract(P_PARSER + ':_Parser.consume_optional_prefix_operator',
                trace == ([] if result is None else [('consume', self.parser._token_stream, old[1])]),
            }, raises_only=())
 
-M.contract(P_PARSER + ':_Parser.consume_optional_start_parentheses',
+M.contract(P_PARSER + ':_Parser.consume_optional_start_parentheses', inline=_in_descent,
            params=dict(self=PARSER), old=_STREAM_HEAD,
            ensures={
                'true iff the head token is an unquoted ( (on any line)': lambda old, result:
@@ -1004,7 +1015,7 @@ M.contract(P_PARSER + ':_Parser._infix_op_names',
            result == names_of_levels(self.grammar.infix_ops_inc_precedence__seq)},
            raises_only=())
 
-M.contract(P_PARSER + ':_Parser.consume_mandatory_end_parentheses',
+M.contract(P_PARSER + ':_Parser.consume_mandatory_end_parentheses', inline=_in_descent,
            params=dict(self=PARSER_W_LEVELS), old=_STREAM_HEAD,
            raises={SIIAE: {'ensures': lambda self, trace: trace == []}},
            ensures={
@@ -1028,7 +1039,7 @@ def is_keys_of(keys, mapping):
     return keys == mapping.keys()
 
 
-M.contract(P_PARSER + ':_Parser.__init__',
+M.contract(P_PARSER + ':_Parser.__init__', inline=_in_descent,
            params=dict(self=Inst(expression_parser._Parser),
                        grammar=Custom(lambda interp, name: PARSER.make(interp, name).grammar), parser=TOKEN_PARSER),
            ensures={
@@ -1475,9 +1486,16 @@ def _run_standin(ctx, host, plans):
 
 def _plans(host_name, tier):
     if tier != 'thorough':
-        # (file / files matchers evaluate on a real directory: the doubled spaces, which do not depend on the
-        # host type, are left to the other four host types in the quick tier)
-        return [_Plan(2, 2, 1, doubled_spaces=host_name not in ('file-matcher', 'files-matcher'))]
+        # (extension P6) The descent -- the same generic code for every host type -- is now proved by induction
+        # (contracts/C06c_descent.py): precedence, runs of one operator, parentheses, prefix operators, the layout
+        # rules and the syntax errors at the level of operators / parentheses.  In the QUICK tier the stand-in keeps
+        # its full bound as a cross-check of that proof for one matcher type and for the transformers; for the other
+        # four host types -- where what differs is the primitives (with their simple components) and the evaluation
+        # -- it keeps every tree shape, every truth assignment, and every single line break (permitted or not), and
+        # leaves redundant parentheses, doubled spaces and damaged variants to the thorough tier (unchanged there).
+        if host_name in ('integer-matcher', 'string-transformer'):
+            return [_Plan(2, 2, 1)]
+        return [_Plan(2, 2, 0, doubled_spaces=False, damaged=False)]
     plans = [_Plan(2, 2, 2, pairs=True, vectors='four')]
     # (the descent is the same generic code for every host type; what differs between them -- the primitives with
     # simple components -- is covered by the bound above: the wider and deeper bounds only for some of them)
